@@ -503,8 +503,16 @@ def run(ctx, V):
     ok, log, failing = ctx.coq_make(["Extract/ExCbuf.vo"])       # re-extract: the model must reflect the regenerated Gen files
     if not ok:
         raise vlib.TieBroken("extraction of the model does not build: " + log[-1500:])
-    cside, tside = build(ctx)
     quick = ctx.tier == "quick"
+    try:
+        cside, tside = build(ctx)
+    except vlib.TieBroken as ex:
+        # a harness reaches into device_tcp.c / cbuf.c by name: if it no longer builds the correspondence is gone, but the whole daemon still
+        # builds - search it for an input on which the property itself fails before giving up
+        V.tie_broken("tie", "harness-build", str(ex)[:1500])
+        V.rule = "the unit harnesses do not build against this tree; only the whole-path stage on pmsim ran (search for a failing input)"
+        pmsim_stage(ctx, V, 60 if quick else 400)
+        return
     V.rule = ("R-CBUF: random op sequences (write / pattern write / peek / read / drop / read_line / peek_line / write_from_fd with scripted "
               "short reads, EOF, EAGAIN / read_to_fd with scripted short writes / flush / used / opt_set) on buffers created with minsize 1..64 and "
               "maxsize around it, on medium pairs that grow in CBUF_CHUNK steps, and on the real 1024/65536 and 1024/1048576 pairs; lengths are aimed at "
@@ -562,6 +570,7 @@ def run(ctx, V):
             V.violation(name, "telnet.preprocess", case, detail)
         else:
             V.tie_broken("correspondence", name, detail, case=dict(kind="telnet", line=sweep_case(*where)))
+    pmsim_stage(ctx, V, 24 if quick else 400)
     if (not proofs_ok or V.broken) and not V.violations:
         # a proof or the correspondence no longer checks but no input violating the property was found: search harder
         ctx.log("proof/tie broken without a failing input: enlarged search")
@@ -570,6 +579,51 @@ def run(ctx, V):
             for kind, name, where, detail in run_sweep(ctx, V, tside.impl, tside.model, 5, 6, 16)[:3]:
                 if kind == "violation":
                     V.violation(name, "telnet.preprocess", dict(kind="telnet", line=sweep_case(*where)) if where else None, detail)
+
+
+def pmsim_stage(ctx, V, n):
+    """the byte path on the WHOLE daemon (pmsim: unmodified powermand, real device_tcp.c / device.c / cbuf.c under the virtual OS), for what
+    the one-device harness of R-TEL cannot show:
+      split   two tcp devices that are healthy but telnet-chatty: every answer carries a telnet sequence and is CUT inside it, the rest follows
+              two rounds later, the other device's answers are read in between (the decoder position belongs to the connection);
+      relogin the first login of a device's life is answered with something else of the same length as the prompt (or one byte less / more):
+              the login times out, the daemon reconnects, and on the new connection the prompt must be seen (nothing of the old connection -
+              bytes, fill level, match bookkeeping - is visible after the reconnect).
+    Monitor: the devices are healthy where it matters, so the requests concerned must end with a success code."""
+    import random, pmsim, pmgen, pmcheck
+    exe = pmsim.build(ctx)
+    scs = []
+    for i in range(n):
+        rng = random.Random(ctx.seed * 49979687 + i)
+        cfg = pmgen.Config()
+        d0 = pmgen.Dev("d0", ["login", "on", "off", "status"], hardwired=["p1", "p2"], transport="tcp", timeout=rng.choice([3.0, 4.0]))
+        d1 = pmgen.Dev("d1", ["login", "on", "off", "status"], hardwired=["p1"], transport="tcp", timeout=rng.choice([3.0, 4.0]))
+        cfg.devs += [d0, d1]
+        cfg.node_lines += [("n0,n1", "d0", "p1,p2"), ("n2", "d1", "p1")]
+        cfg.truth = {"d0": {"p1": "n0", "p2": "n1"}, "d1": {"p1": "n2"}}
+        reqs = [rng.choice(["status n[0-2]", "on n[0-2]", "off n0,n2", "status", "on n1,n2"]) for _ in range(rng.randint(2, 4))]
+        if i % 2 == 0:
+            S = [("devmode", "d0", "iacsplit"), ("devmode", "d1", "iacsplit"), ("connect",), ("wait", 0)]
+            for r in reqs: S += [("send", 0, (r + "\r\n").encode()), ("wait", 0)]
+            tags = dict(style="c09-split", must_succeed=list(range(len(reqs))))
+        else:
+            S = [("devmode", "d1", "badlogin"), ("connect",), ("wait", 0), ("sleep", 9000000)]
+            for r in reqs: S += [("send", 0, (r + "\r\n").encode()), ("wait", 0)]
+            tags = dict(style="c09-relogin", must_succeed=list(range(len(reqs))))
+        scs.append(pmcheck.Scenario(cfg, S, dict(tags, ncli=1)))
+
+    def mon_succeed(sess, sc):
+        if not sess.alive_after_script or sess.wedged or sess.overrun:
+            return []
+        codes = [r[0] for r in (pmcheck.split_replies(sess.client_out.get(0, b"")) or []) if isinstance(r[0], int)]
+        bad = [(i, codes[i] if i < len(codes) else None) for i in sc.tags["must_succeed"] if i >= len(codes) or not 100 <= codes[i] < 200]
+        if bad:
+            return [("whole-path", sc.tags["style"][4:], "healthy (%s) devices, yet request #%d ended with %s: what the scripts saw is not what the devices sent | %r" % (
+                "telnet-chatty" if sc.tags["style"] == "c09-split" else "first login answered wrongly, then fine", bad[0][0], bad[0][1], sess.client_out.get(0, b"")[-400:]))]
+        return []
+    pmcheck.MONITORS["c09succeed"] = mon_succeed
+    pmcheck.run_batch(ctx, V, exe, scs, ["alive", "wedge", "c09succeed"], "c09w")
+    V.count("whole-path-histories", len(scs))
 
 
 def replay(ctx, V, path):
